@@ -25,6 +25,8 @@ def main():
     if "--tier" in sys.argv:
         tier = sys.argv[sys.argv.index("--tier") + 1]
     name = os.path.basename(mdir)
+    if "--name" in sys.argv:
+        name = sys.argv[sys.argv.index("--name") + 1]
     tag = "%s-%s" % (prop, name)
     base = "/tmp/seedrun/" + tag
     shutil.rmtree(base, ignore_errors=True)
